@@ -228,6 +228,13 @@ impl PropCtx {
 
     /// Report a violation: writes the replay file and prints the VIOLATION line.
     pub fn violation(&self, sub: &str, case: &Value, fail: &Fail) {
+        {
+            // one report per (sub, signature): parallel workers often find the same thing
+            let g = self.inner.lock().unwrap();
+            if g.violations.iter().any(|(s, _)| *s == fail.sig) {
+                return;
+            }
+        }
         let dir = verif_root().join("replays");
         let _ = std::fs::create_dir_all(&dir);
         let body = json!({
